@@ -149,7 +149,9 @@ def main(argv):
             undecided.append('%s: %s: %s' % (unit, r.status, r.detail[:600]))
         for f in a.fns:
             ent = {'unit': unit, 'function': '%s::%s' % (f.file, f.item), 'lines': [f.line_start, f.line_end],
-                   'sha256': f.sha256, 'mode': f.mode}
+                   'sha256': f.sha256, 'mode': f.mode, 'bindings': f.locals}
+            if f.renamed:
+                recoveries.append('[%s] R28 %s: contract text follows renamed bindings (%s)' % (unit, f.item, ', '.join('%s->%s' % kv for kv in sorted(f.renamed.items()))))
             if f.mode == 'body':
                 ent['rewrites'] = sorted(set(f.rewrites))
                 ent['smt_ms'] = round(sum(v for k, v in r.fn_ms.items() if k.split('::')[-1] == f.item.split('::')[-1]), 1)
